@@ -13,6 +13,9 @@ from core import wire
 
 class C08(core.Check):
     pid = 'C08'
+    unproved = [
+        'order of several fills inside one minute on real sessions: engine correspondence + path oracle (the static half is C02.sorted_head_first_on_path)',
+    ]
     gen_keys = ['jesse/services/candle.py:split_candle', 'jesse/services/candle.py:is_bullish',
                 'jesse/services/candle.py:is_bearish', 'jesse/services/candle.py:candle_includes_price']
     rule = ('matching loop: whole sessions of the normal simulator with volatile candles and tight exits (several orders '
@@ -68,12 +71,12 @@ class C08(core.Check):
         rng = random.Random(self.seed * 7919 + 8)
         sessions = [engcorr.gen_session(rng, fast=False, max_n=60, tight=True, vol=rng.choice([10, 16, 24]),
                                         gap_prob=rng.choice([0.1, 0.4]), lengths=[15, 20, 30], data=False, allow_two=False)
-                    for _ in range(self.budget(60, 1000, boost))]
+                    for _ in range(self.budget(120, 1000, boost))]
         engcorr.compare_sessions(res, sessions)
 
     def path_oracle(self, res, boost):
         rng = random.Random(self.seed * 104729 + 8)
-        for _ in range(self.budget(80, 1500, boost)):
+        for _ in range(self.budget(200, 1500, boost)):
             sess = engcorr.gen_session(rng, fast=False, max_n=60, tight=True, vol=rng.choice([10, 16, 24]),
                                        gap_prob=rng.choice([0.1, 0.4]), lengths=[15, 20, 30], data=rng.random() < 0.3)
             cands = engcorr.candles_of(sess)
